@@ -210,8 +210,14 @@ def oracle_step(op, before, after):
                 return i[1] if i[0] == "i" else slice(i[1], i[2], i[3])
             xi = list(get_indices(bu.shape[0], ix(op[2])))
             yi = list(get_indices(bu.shape[1], ix(op[3])))
+        if k == "item" and any(i < 0 for i in xi + yi):
+            # a negative integer in `[...]` counts from the end, as everywhere in Python: the result is the view with the
+            # corresponding non-negative index
+            nxb, nyb = bu.shape
+            xi = [i + nxb if i < 0 else i for i in xi]
+            yi = [j + nyb if j < 0 else j for j in yi]
         if any(i < 0 for i in xi + yi):
-            return None   # negative indices: outside the documented index domain
+            return None   # negative indices in get_view's lists: outside the documented index domain
         vac = set(before.vacancies)
         # (1) the vacancy pattern is re-indexed through the index lists (any lists)
         want_vac = set((a, b) for a, i in enumerate(xi) for b, j in enumerate(yi) if (i, j) in vac)
@@ -310,7 +316,7 @@ def exhaustive_chains(thorough):
                     for yi in ysel:
                         out.append(("sub", f, xi, yi))
                 # slicing, stepped slices included (a vacancy may sit on a skipped row / column)
-                sls = [("sl", None, None, None), ("sl", None, None, 2), ("sl", 1, None, 2), ("sl", 0, 1, None), ("i", 0)]
+                sls = [("sl", None, None, None), ("sl", None, None, 2), ("sl", 1, None, 2), ("sl", 0, 1, None), ("i", 0), ("i", -1)]
                 for ixs in sls:
                     for iys in sls:
                         if len(range(nx)[slice(*ixs[1:])] if ixs[0] == "sl" else [0]) and len(range(ny)[slice(*iys[1:])] if iys[0] == "sl" else [0]):
